@@ -70,6 +70,7 @@ type endpoint struct {
 	// ordered: the subscription has message ordering enabled
 	ordered     bool
 	orderChecks int
+	restarts    int
 }
 
 func (ep *endpoint) v(sig, f string, a ...any) {
@@ -244,7 +245,7 @@ func pushBody(t *testing.T, prop string, ordered bool) {
 	if ordered {
 		n = cfg.N(96, 3000)
 	}
-	var pushes, failedPushes, orderChecks int64
+	var pushes, failedPushes, orderChecks, fetchFaults int64
 	statusSeen := map[int]bool{}
 	// (the last four make sure that both characters in which the standard and
 	// the URL-safe base64 alphabets differ occur: a run of four '?' / '~' puts one
@@ -380,7 +381,22 @@ func pushBody(t *testing.T, prop string, ordered bool) {
 				defer seam.C.SetBoundaryDelays(nil, nil)
 			}
 			done := make(chan error, 1)
-			go func() { done <- pusher.Go(ctx) }()
+			// a pusher that gives up with an error is replaced, as the push supervisor
+			// (services/http-push.go) does
+			go func() {
+				p := pusher
+				for {
+					err := p.Go(ctx)
+					if err == nil || ctx.Err() != nil {
+						done <- err
+						return
+					}
+					ep.mu.Lock()
+					ep.restarts++
+					ep.mu.Unlock()
+					p = actions.NewHttpPusher(sub, id, "http://endpoint.invalid/push", client, e.Client)
+				}
+			}()
 			lo := time.Now()
 			var publish func(from, to int)
 			publish = func(from, to int) {
@@ -447,7 +463,30 @@ func pushBody(t *testing.T, prop string, ordered bool) {
 					ep.mu.Unlock()
 					publish(grow+failing, nm)
 				} else {
+					// everything so far was answered and acknowledged, nothing is in
+					// flight: in half of these cases the fetch for what is published now
+					// runs into a storage error at its k-th statement (BEGIN .. COMMIT).
+					// The pusher gives up and is replaced; what the endpoint then sees
+					// must still be numbered 1, 2, ... per message and never overlap
+					faulted := i%2 == 0
+					if faulted {
+						seam.C.ResetCounts()
+						f := &seam.Fault{Actor: "pusher", K: 1 + r.Intn(8), Mode: seam.FaultError}
+						if r.Intn(2) == 0 {
+							// ... or exactly at the COMMIT of the pusher's next transaction
+							f.K, f.Kind = 1, seam.KCommit
+						}
+						seam.C.SetFault(f)
+					}
 					publish(grow, nm)
+					if faulted {
+						time.Sleep(300 * time.Millisecond)
+						rig.Quiesce()
+						if seam.C.FaultHits() > 0 {
+							fetchFaults++
+						}
+						seam.C.SetFault(nil)
+					}
 				}
 			} else {
 				publish(0, nm)
@@ -537,6 +576,7 @@ func pushBody(t *testing.T, prop string, ordered bool) {
 		})
 	}
 	col.Add("ev_pushes_observed", pushes)
+	col.Add("ev_storage_errors_injected_into_a_fetch_of_the_pusher", fetchFaults)
 	col.Add("ev_failed_pushes_observed", failedPushes)
 	col.Add("ev_distinct_final_statuses_this_shard", int64(len(statusSeen)))
 	if ordered {
